@@ -348,6 +348,8 @@ class Check:
                     raise MachineryError(
                         f'trace {tid} event {idx}: unknown op in {shard}')
                 pids = properties_of(c)
+                if c == 'harness.abort':
+                    pids = {self.pid}     # the driver died on this code: reported, never ignored
                 if any(c.startswith(p) for p in self.own_clauses):
                     pids = pids | {self.pid}
                 if self.pid not in pids:
